@@ -537,6 +537,10 @@ func (f *File) Read(p []byte) (n int, err error) {
 	f.ioLock.Lock()
 	defer f.ioLock.Unlock()
 
+	return f.readWithoutLocking(p)
+}
+
+func (f *File) readWithoutLocking(p []byte) (n int, err error) {
 	if f.writeBuf != nil {
 		return f.writeBuf.Read(p)
 	}
@@ -612,24 +616,28 @@ func (f *File) ReadAt(p []byte, off int64) (n int, err error) {
 		return 0, config.ErrIsDirectory
 	}
 
+	// Seeking, reading and seeking back have to happen as one step: `io.ReaderAt` allows parallel calls on the same handle
+	f.ioLock.Lock()
+	defer f.ioLock.Unlock()
+
 	// Positioned reads don't move the cursor, so remember where it is
-	pos, err := f.Seek(0, io.SeekCurrent)
+	pos, err := f.seekWithoutLocking(0, io.SeekCurrent)
 	if err != nil {
 		return 0, err
 	}
 
-	if _, err := f.Seek(off, io.SeekStart); err != nil {
+	if _, err := f.seekWithoutLocking(off, io.SeekStart); err != nil {
 		return 0, err
 	}
 
-	n, err = f.Read(p)
+	n, err = f.readWithoutLocking(p)
 
 	// Unlike `Read`, `ReadAt` has to explain why it returned fewer bytes than requested
 	if err == nil && n < len(p) {
 		err = io.EOF
 	}
 
-	if _, serr := f.Seek(pos, io.SeekStart); serr != nil && err == nil {
+	if _, serr := f.seekWithoutLocking(pos, io.SeekStart); serr != nil && err == nil {
 		err = serr
 	}
 
